@@ -484,10 +484,71 @@ class CallMixin:
         h = self.reg.ext_models.get(("new", name))
         if h is not None:
             return h(self, st, args, kwargs, node)
+        nt = self.namedtuple_fields(name)
+        if nt is not None:
+            return self.construct_namedtuple(st, name, nt, args, kwargs, node)
         dc = self.dataclass_fields(name)
         if dc is not None:
             return self.construct_dataclass(st, name, dc, args, kwargs, node)
         return self.havoc_call(st, f"new {name}", args, node)
+
+    def namedtuple_fields(self, name):
+        """[(field, default expr|None)] for a `class X(NamedTuple)` defined in the current module, else None."""
+        cls = self.module.classes.get(name)
+        if cls is None:
+            return self.functional_namedtuple_fields(name)
+        if not any(ast.unparse(b) in ("NamedTuple", "typing.NamedTuple") for b in cls.bases):
+            return None
+        return [(b.target.id, b.value) for b in cls.body if isinstance(b, ast.AnnAssign) and isinstance(b.target, ast.Name)]
+
+    def functional_namedtuple_fields(self, name):
+        """the same for a module-level `X = collections.namedtuple("X", "a b" | ["a", "b"])` / `X = typing.NamedTuple("X", [("a", T), ..])`
+        of the current module (no defaults / rename / keyword form: anything else is not recognised -> None)."""
+        expr = getattr(self.module, "assigns", {}).get(name)
+        if not isinstance(expr, ast.Call) or len(expr.args) != 2 or expr.keywords:
+            return None
+        f = expr.func
+        imports = getattr(self.module, "imports", {})
+        if isinstance(f, ast.Name):
+            dotted = imports.get(f.id)
+        elif isinstance(f, ast.Attribute) and isinstance(f.value, ast.Name) and f.value.id in imports:
+            dotted = f"{imports[f.value.id]}.{f.attr}"
+        else:
+            return None
+        spec = expr.args[1]
+        names = None
+        if dotted == "collections.namedtuple":
+            try:
+                val = ast.literal_eval(spec)
+            except (ValueError, SyntaxError, TypeError):
+                return None
+            if isinstance(val, str):
+                names = val.replace(",", " ").split()
+            elif isinstance(val, (list, tuple)) and all(isinstance(x, str) for x in val):
+                names = list(val)
+        elif dotted == "typing.NamedTuple" and isinstance(spec, (ast.List, ast.Tuple)):
+            if all(isinstance(e, ast.Tuple) and len(e.elts) == 2 and isinstance(e.elts[0], ast.Constant) and isinstance(e.elts[0].value, str)
+                   for e in spec.elts):
+                names = [e.elts[0].value for e in spec.elts]
+        if not names or len(set(names)) != len(names) or not all(n.isidentifier() and not n.startswith("_") for n in names):
+            return None
+        return [(n, None) for n in names]
+
+    def construct_namedtuple(self, st, name, fields, args, kwargs, node):
+        from .values import VNamedTuple
+        names = [f for f, _d in fields]
+        if len(args) > len(names) or any(k not in names for k in kwargs) or any(k in names[:len(args)] for k in kwargs):
+            self.raise_in(st, self.mk_exc("TypeError"))
+            return []
+        data = dict(zip(names, args))
+        data.update(kwargs)
+        for f, d in fields:
+            if f not in data:
+                if d is None:
+                    self.raise_in(st, self.mk_exc("TypeError"))
+                    return []
+                data[f] = self.ev(d, State())[0][1]
+        return [(st, VNamedTuple([data[f] for f in names], names, name))]
 
     def dataclass_fields(self, name):
         """[(field, default expr|None)] for a @dataclass defined in the current
